@@ -38,10 +38,17 @@ pub fn replay(input: &str, output: &str, trace: &str) {
         let mut p = robots::geometry(robots::GEOMETRY_CLASSES[id % robots::GEOMETRY_CLASSES.len()], &mut r);
         p = robots::convention(p, r.gen_range(0..64), line["off"].as_str().unwrap(), &mut r);
         p.sign_corrections[4] = s5;
-        let layers = solver::stack_for(line["stack"].as_str().unwrap(), &mut r);
+        // ("pgram-j5": a coupling whose coupled joint is joint 5 itself - the wrist angle the inner robot sees is the
+        //  caller's value reduced by scaling times the driven joint)
+        let layers = if line["stack"] == "pgram-j5" {
+            vec![solver::LayerF::Pgram { driven: [0usize, 1, 2, 3, 5][r.gen_range(0..5)], coupled: 4, scaling: [1.0, -1.0, 0.5, 1.7][r.gen_range(0..4)] }]
+        } else { solver::stack_for(line["stack"].as_str().unwrap(), &mut r) };
         let robot = Robot::new(p, layers, None);
+        // the joint vector of the innermost robot, then the vector the caller has to pass for it
         let mut q: Joints = std::array::from_fn(|_| r.gen_range(-3.0..3.0));
         q[4] = (g5 + p.offsets[4]) * s5 as f64;
+        let leaf_q = q;
+        let q = solver::outer_joints(&robot.layers, &leaf_q);
         let Some(rep) = guarded(|| robot.kin.kinematic_singularity(&q).is_some()) else {
             out.put(json!({"sig": "singular:panic", "detail": line.to_string()}));
             continue;
